@@ -351,4 +351,77 @@ Proof.
   unfold arm_in. destruct (_ <=? 0); unfold add_wakes; exact Hbq.
 Qed.
 
+(* ------------------------------------------------------------------ the restart loop *)
+Lemma restart_measure q (s0 s' : vsock) :
+  ss_ok (v_ss s0) -> restart_R q s0 s' ->
+  0 <= dss (v_ss s') <= dss (v_ss s0) /\
+  ((forall z, ~ q z) -> 1 <= dss (v_ss s0) /\ 2 * dss (v_ss s') <= dss (v_ss s0)).
+Proof.
+  intros Hok (_ & _ & _ & ssm & zp & z & Hokm & Hmono & Hzp & Hz0 & Hz & ->).
+  unfold dss, on_probe_failed, disarm_cooldown, sat_sub, ss_ok, ss_mono, PB, U16_MAX, M16 in *.
+  cbn [min_ss max_ss]. split; [lia|].
+  intros Hq. destruct Hzp as [Hzp|Hzp]; [destruct (Hq _ Hzp)|].
+  destruct Hz as [[Hz|Hz]|Hz]; [destruct (Hq _ Hz)| |].
+  - assert (z mod 65536 = z) by (apply Z.mod_small; lia). lia.
+  - assert (z mod 65536 = z) by (apply Z.mod_small; lia). lia.
+Qed.
+
+Lemma poll_loop_S (f : nat) (s : vsock) :
+  poll_loop cci (S f) s =
+  match poll_body cci s with
+  | BrReturn s' r => (s', r)
+  | BrRestart s' => poll_loop cci f s'
+  | BrPanic => (s, PollPanic)
+  end.
+Proof. reflexivity. Qed.
+
+Lemma poll_loop_x : forall (fuel : nat) (s : vsock),
+  vs_x ti tm 0 qF s -> 0 <= v_env_now s <= SAMPLE_BOUND -> ef strict s ->
+  dss (v_ss s) < 2 ^ (Z.of_nat fuel - 1) -> (1 <= fuel)%nat ->
+  let '(s', r) := poll_loop cci fuel s in ret_ok s' r.
+Proof.
+  induction fuel as [|f IH]; intros s Hx Hclk Hef Hd Hf; [lia|].
+  rewrite poll_loop_S. pose proof (poll_body_x qF s Hx Hclk Hef) as Hb.
+  destruct (poll_body cci s) as [s' r|s'|]; cbn [br_ok] in Hb; [exact Hb| |destruct Hb].
+  pose proof Hb as (Hns & Hx' & Henv & _).
+  destruct (inv_parts _ _ _ _ (proj1 Hx)) as (_ & _ & _ & _ & _ & K6 & _).
+  destruct (restart_measure qF s s' K6 Hb) as (M0 & M1).
+  destruct M1 as (M1 & M2); [unfold qF; tauto|].
+  assert (Hf1 : (1 <= f)%nat).
+  { destruct f; [|lia]. cbn in Hd. lia. }
+  apply IH; [exact Hx'|rewrite Henv; exact Hclk|unfold ef; rewrite Hns; discriminate| |exact Hf1].
+  replace (Z.of_nat (S f) - 1) with (Z.succ (Z.of_nat f - 1)) in Hd by lia.
+  rewrite Z.pow_succ_r in Hd by lia. lia.
+Qed.
+
+(* VirtualSocket::poll: the 64 iterations of fuel are never exhausted *)
+Theorem poll_x (s : vsock) :
+  vs_x ti tm 0 qT s -> 0 <= v_env_now s <= SAMPLE_BOUND -> ef strict s ->
+  let '(s', r) := poll cci s in ret_ok s' r.
+Proof.
+  intros Hx Hclk Hef. unfold poll.
+  set (s1 := set_arm_in (set_wakes (set_out s []) []) None).
+  assert (Hx1 : vs_x ti tm 0 qT s1) by exact Hx.
+  assert (Hclk1 : 0 <= v_env_now s1 <= SAMPLE_BOUND) by exact Hclk.
+  assert (Hef1 : ef strict s1) by exact Hef.
+  clearbody s1. change 64%nat with (S 63). remember 63%nat as f63 eqn:E63. rewrite poll_loop_S.
+  pose proof (poll_body_x qT s1 Hx1 Hclk1 Hef1) as Hb.
+  destruct (poll_body cci s1) as [s' r|s'|]; cbn [br_ok] in Hb; [exact Hb| |destruct Hb].
+  pose proof Hb as (Hns & Hx' & Henv & _).
+  destruct (inv_parts _ _ _ _ (proj1 Hx1)) as (_ & _ & _ & _ & _ & K6 & _).
+  destruct (restart_measure qT s1 s' K6 Hb) as (M0 & _).
+  apply poll_loop_x; [exact Hx'|rewrite Henv; exact Hclk1|unfold ef; rewrite Hns; discriminate| |subst f63; lia].
+  subst f63. unfold dss, ss_ok, U16_MAX in *. change (Z.of_nat 63 - 1) with 62.
+  assert (65535 < 2 ^ 62) by (vm_compute; reflexivity). lia.
+Qed.
+
+(* in the strict reading (the transport never answers EMSGSIZE) an iteration never restarts *)
+Lemma poll_body_strict q (s0 : vsock) :
+  strict = true -> vs_x ti tm 0 q s0 -> 0 <= v_env_now s0 <= SAMPLE_BOUND -> ef strict s0 ->
+  forall s', poll_body cci s0 <> BrRestart s'.
+Proof.
+  intros Hs Hx Hclk Hef s' E. pose proof (poll_body_x q s0 Hx Hclk Hef) as Hb.
+  rewrite E in Hb. cbn [br_ok] in Hb. destruct Hb as (Hns & _). congruence.
+Qed.
+
 End Poll.
